@@ -130,11 +130,14 @@ CostQuiet(e, s, maxh) ==
               /\ Post(e, s).mI <= Pre(s).mI
               /\ (BothFull(e, s) => Keys(MainE(Post(e, s))) \subseteq Keys(MainE(Pre(s)))))
 \* a call that adds one key
-CostKeyAdd(e, s, removedFromOld) ==
+\* a call that adds one key (an entry chain may contain n such calls: Entry::insert, then
+\* replace_entry_with(None), then VacantEntry::insert)
+CostKeyAddN(e, s, removedFromOld, n) ==
     /\ Chk("C02", "R_is_8_or_test_4", e, R \in {4, 8})
-    /\ Chk("C02", "keyadd_hashes", e, e.cost.h <= R + 2)
-    /\ Chk("C02", "keyadd_allocs", e, AL(e) <= 1)
-    /\ Chk("C02", "keyadd_moves", e, (IsSplit(Pre(s)) => MovedOut(e, s) - removedFromOld <= R))
+    /\ Chk("C02", "keyadd_hashes", e, e.cost.h <= n * R + 2)
+    /\ Chk("C02", "keyadd_allocs", e, AL(e) <= n)
+    /\ Chk("C02", "keyadd_moves", e, (IsSplit(Pre(s)) => MovedOut(e, s) - removedFromOld <= n * R))
+CostKeyAdd(e, s, removedFromOld) == CostKeyAddN(e, s, removedFromOld, 1)
 \* C03: a key-adding call on a split map moves min(R, remaining) and frees the emptied old table
 Progress(e, s, removedFromOld) ==
     Chk("C03", "moves_min_R_remaining", e,
@@ -484,7 +487,7 @@ H_Eq(e) ==
 (***************************************************************************)
 \* chain state: E contents, mode, ek = identity of the key object the handle still owns,
 \* drops, ok = every observation so far matched, added = a new key was inserted, fn = closure calls
-C0(E, ek) == [E |-> E, mode |-> "E", ek |-> ek, drops |-> {}, ok |-> TRUE, added |-> FALSE, fn |-> 0, bad |-> 0, rm |-> 0]
+C0(E, ek) == [E |-> E, mode |-> "E", ek |-> ek, drops |-> {}, ok |-> TRUE, added |-> FALSE, fn |-> 0, bad |-> 0, rm |-> 0, nadd |-> 0]
 Obs(C, i, o, cond) == [C EXCEPT !.ok = C.ok /\ ~HasF(o, "na") /\ cond,
                                 !.bad = IF C.bad = 0 /\ ~(~HasF(o, "na") /\ cond) THEN i ELSE C.bad]
 EStep(C0_, kk, m, o, vid, i) ==
@@ -505,7 +508,7 @@ EStep(C0_, kk, m, o, vid, i) ==
       [] C.mode = "E" /\ name \in {"or_insert", "or_insert_with", "or_insert_with_key"} ->
              IF pres
              THEN Obs([C EXCEPT !.mode = "R", !.drops = @ \cup NZ({vid, C.ek}), !.ek = 0], i, o, TRUE)
-             ELSE Obs([C EXCEPT !.mode = "R", !.E = @ \cup {<<kk, m.v, C.ek, vid>>}, !.ek = 0, !.added = TRUE,
+             ELSE Obs([C EXCEPT !.mode = "R", !.E = @ \cup {<<kk, m.v, C.ek, vid>>}, !.ek = 0, !.added = TRUE, !.nadd = @ + 1,
                                !.fn = @ + (IF name = "or_insert" THEN 0 ELSE 1)], i, o, TRUE)
       [] C.mode = "E" /\ name = "and_modify" ->
              IF pres THEN Obs([C EXCEPT !.E = Put(C.E, <<kk, (el[2] + m.add) % 1000, el[3], el[4]>>), !.fn = @ + 1], i, o, TRUE)
@@ -515,7 +518,7 @@ EStep(C0_, kk, m, o, vid, i) ==
       [] C.mode = "E" /\ name = "insert" ->
              IF pres
              THEN Obs([C EXCEPT !.E = Put(C.E, <<kk, m.v, el[3], vid>>), !.mode = "O", !.drops = @ \cup NZ({el[4]})], i, o, TRUE)
-             ELSE Obs([C EXCEPT !.E = @ \cup {<<kk, m.v, C.ek, vid>>}, !.mode = "O", !.ek = 0, !.added = TRUE], i, o, TRUE)
+             ELSE Obs([C EXCEPT !.E = @ \cup {<<kk, m.v, C.ek, vid>>}, !.mode = "O", !.ek = 0, !.added = TRUE, !.nadd = @ + 1], i, o, TRUE)
       [] C.mode = "E" /\ name = "match" ->
              Obs([C EXCEPT !.mode = IF pres THEN "O" ELSE "V"], i, o, o.occ = (IF pres THEN 1 ELSE 0))
       [] C.mode = "O" /\ name = "o_key" -> Obs(C, i, o, o.k = kk /\ o.kid = el[3])
@@ -543,7 +546,7 @@ EStep(C0_, kk, m, o, vid, i) ==
       [] C.mode = "V" /\ name = "v_key" -> Obs(C, i, o, o.k = kk /\ o.kid = C.ek)
       [] C.mode = "V" /\ name = "v_into_key" -> Obs([C EXCEPT !.mode = "D", !.ek = 0], i, o, o.rk = kk /\ o.rkid = C.ek)
       [] C.mode = "V" /\ name = "v_insert" ->
-             Obs([C EXCEPT !.E = @ \cup {<<kk, m.v, C.ek, vid>>}, !.mode = "R", !.ek = 0, !.added = TRUE], i, o, TRUE)
+             Obs([C EXCEPT !.E = @ \cup {<<kk, m.v, C.ek, vid>>}, !.mode = "R", !.ek = 0, !.added = TRUE, !.nadd = @ + 1], i, o, TRUE)
       [] C.mode = "R" /\ name = "write" ->
              LET nv == IF HasF(m, "w") THEN m.w ELSE el[2] IN
              Obs([C EXCEPT !.E = Put(C.E, <<kk, nv, el[3], el[4]>>)], i, o, o.v = nv /\ o.vid = el[4])
@@ -571,9 +574,9 @@ H_Entry(e) ==
         /\ DropsAre(e, drops)
         /\ Chk("C12", "entry_closure_calls", e, e.cost.fn = F.fn)
         /\ IF F.added
-           THEN /\ CostKeyAdd(e, s, IF wasOld THEN 1 ELSE 0) /\ (F.rm = 0 => CapMono(e, s))
+           THEN /\ CostKeyAddN(e, s, IF wasOld THEN 1 ELSE 0, F.nadd) /\ (F.rm = 0 => CapMono(e, s))
                 /\ Chk("C03", "moves_min_R_remaining", e,
-                       IsSplit(Pre(s)) =>
+                       (IsSplit(Pre(s)) /\ F.nadd = 1) =>
                            LET rem == Pre(s).oI - (IF wasOld THEN 1 ELSE 0) IN
                            /\ Post(e, s).oI = rem - MinI(R, rem)
                            /\ (Post(e, s).oI = 0 => ~IsSplit(Post(e, s))))
@@ -602,11 +605,11 @@ RStep(C0_, kk, m, o, ids, i) ==
              IF pres
              THEN \* RawEntryMut::insert on an occupied entry: value replaced, the given key dropped
                   Obs([C EXCEPT !.E = Put(C.E, <<kk, m.v, el[3], nv>>), !.mode = "O", !.drops = @ \cup NZ({el[4], nk})], i, o, TRUE)
-             ELSE Obs([C EXCEPT !.E = @ \cup {<<kk, m.v, nk, nv>>}, !.mode = "O", !.added = TRUE, !.h2 = TRUE], i, o, TRUE)
+             ELSE Obs([C EXCEPT !.E = @ \cup {<<kk, m.v, nk, nv>>}, !.mode = "O", !.added = TRUE, !.nadd = @ + 1, !.h2 = TRUE], i, o, TRUE)
       [] C.mode = "E" /\ name \in {"or_insert", "or_insert_with"} ->
              IF pres
              THEN Obs([C EXCEPT !.mode = "R", !.drops = @ \cup NZ({nk, nv})], i, o, TRUE)
-             ELSE Obs([C EXCEPT !.mode = "R", !.E = @ \cup {<<kk, m.v, nk, nv>>}, !.added = TRUE, !.h2 = TRUE,
+             ELSE Obs([C EXCEPT !.mode = "R", !.E = @ \cup {<<kk, m.v, nk, nv>>}, !.added = TRUE, !.nadd = @ + 1, !.h2 = TRUE,
                                !.fn = @ + (IF name = "or_insert" THEN 0 ELSE 1)], i, o, TRUE)
       [] C.mode = "E" /\ name = "and_modify" ->
              IF pres THEN Obs([C EXCEPT !.E = Put(C.E, <<kk, (el[2] + m.add) % 1000, el[3], el[4]>>), !.fn = @ + 1], i, o, TRUE)
@@ -634,7 +637,7 @@ RStep(C0_, kk, m, o, ids, i) ==
                  o.rk = kk /\ o.rkid = el[3] /\ o.rv = el[2] /\ o.rvid = el[4])
       [] C.mode = "O" /\ name = "o_replace_entry_with" -> ReplaceWith
       [] C.mode = "V" /\ name \in {"v_insert", "v_insert_hashed", "v_insert_with_hasher"} ->
-             Obs([C EXCEPT !.E = @ \cup {<<kk, m.v, nk, nv>>}, !.mode = "R", !.added = TRUE,
+             Obs([C EXCEPT !.E = @ \cup {<<kk, m.v, nk, nv>>}, !.mode = "R", !.added = TRUE, !.nadd = @ + 1,
                            !.h2 = (name = "v_insert")], i, o, TRUE)
       [] C.mode = "R" /\ name = "write" ->
              LET w == IF HasF(m, "w") THEN m.w ELSE el[2] IN
@@ -654,7 +657,7 @@ H_RawEntry(e) ==
     /\ (BothFull(e, s) /\ ~Panicked(e)) =>
         LET C == [C0(Cont(Pre(s)), 0) EXCEPT !.mode = "E"]
             F == RFold([E |-> C.E, mode |-> "E", ek |-> 0, drops |-> {}, ok |-> TRUE, added |-> FALSE,
-                        fn |-> 0, bad |-> 0, h2 |-> FALSE, rm |-> 0], e, e.k, 1)
+                        fn |-> 0, bad |-> 0, h2 |-> FALSE, rm |-> 0, nadd |-> 0], e, e.k, 1)
             wasOld == Has(OldE(Pre(s)), e.k)
             h0 == IF e.via = "key" THEN 1 ELSE 0
         IN
@@ -663,9 +666,9 @@ H_RawEntry(e) ==
         /\ DropsAre(e, F.drops)
         /\ Chk("C12", "raw_entry_closure_calls", e, e.cost.fn = F.fn)
         /\ IF F.added
-           THEN /\ CostKeyAdd(e, s, IF wasOld THEN 1 ELSE 0) /\ (F.rm = 0 => CapMono(e, s))
+           THEN /\ CostKeyAddN(e, s, IF wasOld THEN 1 ELSE 0, F.nadd) /\ (F.rm = 0 => CapMono(e, s))
                 /\ Chk("C03", "moves_min_R_remaining", e,
-                       IsSplit(Pre(s)) =>
+                       (IsSplit(Pre(s)) /\ F.nadd = 1) =>
                            LET rem == Pre(s).oI - (IF wasOld THEN 1 ELSE 0) IN
                            /\ Post(e, s).oI = rem - MinI(R, rem)
                            /\ (Post(e, s).oI = 0 => ~IsSplit(Post(e, s))))
